@@ -141,6 +141,18 @@ def run(tier):
         p = os.path.join(gdir, 'lit%d.c' % i)
         common.write(p, d.text.encode('latin-1', 'replace') + b'\n')
         inputs.append(('lit:%d' % i, p))
+    # diagnostics under line markers, #line, splices and comments (the location bookkeeping of both stages): decorated single-file renderings of catalogue violations
+    from . import c11
+    from .. import neg_catalogue
+    dr = random.Random(rng.getrandbits(48))
+    for i in range(150 if tier == 'quick' else 3000):
+        kind_, cls_, text_ = dr.choice(neg_catalogue.CAT)[:3]
+        lines_ = c11.program(dr, kind_, cls_, text_, dr.choice([2, 4]))
+        deco_ = c11.render(lines_, dr, dr.choice([0.4, 0.8]), ['in.c'], set())
+        p = os.path.join(gdir, 'diag%d.c' % i)
+        tx = deco_.texts()[0]
+        common.write(p, tx if isinstance(tx, bytes) else tx.encode('latin-1', 'replace'))
+        inputs.append(('diag:%d' % i, p))
     seqs = [b for _, b, _ in c14.INVALID] + [b'\xf4\x8f\xbf\xbf', b'\xf4\x90\x80\x80', b'\xf4\x90\x80\x81', b'\xed\x9f\xbf', b'\xee\x80\x80', b'\xef\xbf\xbf', b'\xf0\x90\x80\x80', b'\xc2\x80', b'\xdf\xbf', b'\xe0\xa0\x80', b'\xe2\x82\xac', b'\xc3\xa9']
     for i, q in enumerate(seqs):
         for j, pfx in enumerate((b'', b'u8', b'u', b'U', b'L')):
